@@ -1,5 +1,6 @@
 """C09 Quantisers: affine map into the signed b-bit range, stated refresh (DESIGN §4.C09)."""
 import ast
+from fractions import Fraction as F
 from vstatic import terms as T
 from vstatic.terms import sym, Term, Atom, lift, pretty
 from .common import agree_ref, who_writes, selfattr
@@ -100,6 +101,31 @@ def run(ctx):
             tol = mentions_std(d) and any(a.kind == 'call' and a.args[0] == 'abs' for a in T.all_atoms(d).values())
     ctx.ob('FLOATEQ', 'the zero-variance test tolerates the rounding of the mean (data_std <= c*|data_mean|), it is not an exact '
            'comparison with 0', qr, (not exact) and tol, {'test': pretty(G)}, node=g_node, construct='zero-variance test of data_std')
+    # ... and "the rounding of the mean" is the rounding of the precision the statistics were computed in: the mean of a constant
+    # float32 array is off by float32 roundings (np.std(np.full(100, 0.1, np.float32)) is 3e-8, far above 16 * 2.2e-16 * 0.1),
+    # so a tolerance built from the float64 epsilon alone lets constant float32 input through target_std / 3e-8.
+    # Accepted: the epsilon is taken from the dtype of the statistics / the data, or the tolerance is a plain relative constant
+    # of at least 1e-6, or estimate_stats computes both moments in double precision (dtype=float).
+    fin = [a for a in T.all_atoms(G).values() if a.kind in ('call', 'attr') and 'finfo' in pretty(Term.of(a))[:40]]
+    uses_dtype = any(x.kind == 'attr' and x.args[1] == 'dtype' or (x.kind == 'call' and str(x.args[0]) in ('result_type', 'promote_types', 'getattr', 'issubdtype'))
+                     or (x.kind == 'ite')
+                     for a in fin for x in T.all_atoms(Term.of(a)).values())
+    es = ctx.func(DSM + 'estimate_stats')
+    double_stats = all(any(k.arg == 'dtype' and ast.unparse(k.value) in ('float', 'np.float64', 'xp.float64', 'numpy.float64')
+                           for k in n.keywords)
+                       for n in ast.walk(es.node) if isinstance(n, ast.Call) and ast.unparse(n.func).split('.')[-1] in ('mean', 'std'))
+    coarse = False
+    if not fin and ga is not None:
+        inner_ = ga.args[0].single_atom() if ga.kind == 'not' else ga
+        if inner_ is not None and inner_.kind == 'cmp' and inner_.args[0] == '<':
+            d_ = inner_.args[1] - inner_.args[2]
+            cs_ = [abs(c_) for m_, c_ in d_.p.items() if any(a_.kind == 'call' and a_.args[0] == 'abs' for a_, _ in m_)]
+            coarse = bool(cs_) and min(cs_) >= F(1, 1000000)
+    ok_prec = uses_dtype or double_stats or coarse
+    ctx.ob('FLOATEQ', 'the tolerance of the zero-variance test follows the precision of the statistics (constant float32 input has '
+           'a computed deviation of a few float32 roundings of its mean, not float64 ones)', qr, ok_prec,
+           {'test': pretty(G)[:300], 'epsilon_from_dtype': uses_dtype, 'statistics_in_double_precision': double_stats},
+           node=g_node, construct='zero-variance test of data_std [precision]')
     T.NOTNONE.discard('data_std')
     T.NOTNONE.discard('data_mean')
     r2, I2 = ctx.run(qr, args={'data_std': T.NONE}, no_inline=(DSM + 'estimate_stats',))
